@@ -95,7 +95,13 @@ class C12(Prop):
             if rng.random() < 0.3:
                 stmts.insert(rng.randint(2, len(stmts)), rng.choice(FAILING))
             double = rng.random() < 0.25
-            if double:
+            again_bucket = "b0"
+            if rng.random() < 0.12:
+                # the same statement text twice, with the variable it mentions bound to another bucket in between
+                stmts = ['b = "b0";', 'again = query_bucket(b);', 'n = query_bucket_eventcount(b);'] + stmts + \
+                        ['b = "b1";', 'again = query_bucket(b);', 'n = query_bucket_eventcount(b);', "RETURN = again;"]
+                again_bucket = "b1"
+            elif double:
                 # read the same bucket again after the first result was transformed in place: the second read must
                 # still be the direct windowed read
                 stmts.append('again = query_bucket("b0");')
@@ -113,7 +119,12 @@ class C12(Prop):
                 w1 = FUTURE + rng.choice([0, 2, 10]) * SEC
             for be in storelib.BACKENDS:
                 out.append(("program", {"backend": be, "events": evs, "prog": "\n".join(stmts), "start": w0, "end": w1,
-                                        "off": rng.choice([0, 120, -300])}))
+                                        "off": rng.choice([0, 120, -300]), "again_bucket": again_bucket}))
+        # more events inside the window than any internal limit (10 000)
+        n = 10_001
+        evs = {"b0": [[None, T0 + k * 1000, 1000, DATAS[k % 2]] for k in range(n)], "b1": [[None, T0, SEC, DATAS[0]]]}
+        out.append(("huge-window", {"backend": "sqlite", "events": evs, "prog": 'again = query_bucket("b0");\nRETURN = again;',
+                                    "start": T0 - SEC, "end": T0 + 20 * SEC, "off": 0, "again_bucket": "b0"}))
         return out
 
     def impl(self, case):
@@ -244,9 +255,10 @@ class C12(Prop):
                     return (f"the query ({out['res']}) changed bucket {b}: {json.dumps(out['before'][b], ensure_ascii=False)[:300]} -> "
                             f"{json.dumps(out['after'].get(b), ensure_ascii=False)[:300]}")
             return "the query changed the set of buckets"
-        if out.get("second_read") is not None and out["second_read"] != out["direct"]["b0"]["get"]:
-            return (f"a second query_bucket(b0) inside the query returned {json.dumps(out['second_read'], ensure_ascii=False)[:300]}, "
-                    f"the direct windowed read {json.dumps(out['direct']['b0']['get'], ensure_ascii=False)[:300]}")
+        if out.get("second_read") is not None and out["second_read"] != out["direct"][case.get("again_bucket", "b0")]["get"]:
+            ab = case.get("again_bucket", "b0")
+            return (f"the last query_bucket({ab}) inside the query returned {json.dumps(out['second_read'], ensure_ascii=False)[:300]}, "
+                    f"the direct windowed read of {ab} {json.dumps(out['direct'][ab]['get'], ensure_ascii=False)[:300]}")
         if out.get("rerun") and out["rerun"]["qb"] != out["rerun"]["direct"]:
             return (f"after an insert the same query_bucket(b0) query returned {json.dumps(out['rerun']['qb'], ensure_ascii=False)[:300]}, "
                     f"the direct windowed read {json.dumps(out['rerun']['direct'], ensure_ascii=False)[:300]}")
